@@ -1043,42 +1043,39 @@ func runC19(c *Ctx) {
 				}
 				return m.isLenOfBuf(v)
 			}
-			isPow := func(v ssa.Value) bool {
-				shl, ok := v.(*ssa.BinOp)
-				if !ok || shl.Op != token.SHL || !isConstInt(shl.X, 1) {
-					return false
-				}
-				y := shl.Y
+			// the number of leading zeros of p: bits.LeadingZeros64(p), or 64 − bits.Len64(p), which is its definition
+			isLZ := func(y ssa.Value) bool {
 				if cv, ok := y.(*ssa.Convert); ok {
 					y = cv.X
+				}
+				want := "LeadingZeros64"
+				if bo, ok := y.(*ssa.BinOp); ok && bo.Op == token.SUB && isConstInt(bo.X, 64) {
+					y, want = bo.Y, "Len64"
 				}
 				call, ok := y.(*ssa.Call)
 				if !ok {
 					return false
 				}
 				cal := call.Call.StaticCallee()
-				if cal == nil || cal.Name() != "LeadingZeros64" {
+				if cal == nil || cal.Pkg == nil || cal.Pkg.Pkg.Path() != "math/bits" || cal.Name() != want {
 					return false
 				}
 				_, f := loadedField(call.Call.Args[0])
 				return f != nil && sameField(f, m.pF)
 			}
+			isPow := func(v ssa.Value) bool {
+				shl, ok := v.(*ssa.BinOp)
+				if !ok || shl.Op != token.SHL || !isConstInt(shl.X, 1) {
+					return false
+				}
+				return isLZ(shl.Y)
+			}
 			if mul.Op == token.MUL && ((isLen(mul.X) && isPow(mul.Y)) || (isLen(mul.Y) && isPow(mul.X))) {
 				okC = true
 			}
 			// Len << LeadingZeros64(p): the same product written as a shift
-			if mul.Op == token.SHL && isLen(mul.X) {
-				y := mul.Y
-				if cv, ok := y.(*ssa.Convert); ok {
-					y = cv.X
-				}
-				if call, ok := y.(*ssa.Call); ok {
-					if cal := call.Call.StaticCallee(); cal != nil && cal.Name() == "LeadingZeros64" {
-						if _, f := loadedField(call.Call.Args[0]); f != nil && sameField(f, m.pF) {
-							okC = true
-						}
-					}
-				}
+			if mul.Op == token.SHL && isLen(mul.X) && isLZ(mul.Y) {
+				okC = true
 			}
 		})
 		c.judge(okC, "R-P-MONOTONE", "distinct.(*Counter).Count:formula", cnt.Pos(), "Count = Len × (1 << LeadingZeros64(p))", "Count is not Len times 2^LeadingZeros64(p)")
@@ -1113,18 +1110,35 @@ func runC19(c *Ctx) {
 	// ---- R-REROLL / R-HALVE-PAIR: two structural necessary conditions of unbiasedness
 	if add := P.Func("distinct", "Counter", "Add"); add != nil && len(add.Params) == 2 {
 		v := add.Params[1]
-		touchesV := func(in ssa.Instruction) bool {
+		var touches func(in ssa.Instruction, v ssa.Value, d int) bool
+		touches = func(in ssa.Instruction, v ssa.Value, d int) bool {
 			e, _, _, elems, ok := m.bufEvent(in)
-			if !ok || (!e.grows && !e.shrinks) {
-				return false
+			if ok && (e.grows || e.shrinks) {
+				for _, el := range elems {
+					if el == v {
+						return true
+					}
+				}
 			}
-			for _, el := range elems {
-				if el == ssa.Value(v) {
-					return true
+			// a helper of the package that is handed v and adds or removes it on every one of its paths
+			// (c.insert(v)) re-decides it just as well
+			if call, isCall := in.(*ssa.Call); isCall && d < 2 {
+				if cal := staticCallee(&call.Call); cal != nil && cal.Blocks != nil && cal.Pkg == origin(add).Pkg {
+					for j, a := range call.Call.Args {
+						if a != v || j >= len(cal.Params) {
+							continue
+						}
+						pv := ssa.Value(cal.Params[j])
+						all, _ := mustPassToExitE(P, firstInstr(cal), func(x ssa.Instruction) bool { return touches(x, pv, d+1) }, nil)
+						if all || touches(firstInstr(cal), pv, d+1) {
+							return true
+						}
+					}
 				}
 			}
 			return false
 		}
+		touchesV := func(in ssa.Instruction) bool { return touches(in, v, 0) }
 		okR, wit := mustPassToExitE(P, firstInstr(add), touchesV, func(iff *ssa.If, i int) bool {
 			// on an edge where the buffer is known to be empty, "remove v" has nothing to do
 			cm, ok := edgeCmp(iff, i)
